@@ -556,3 +556,59 @@ func (fl *filler) scalar(fd protoreflect.FieldDescriptor) protoreflect.Value {
 	}
 	return fd.Default()
 }
+
+// listNsValues lists the value of every namespace-name field of every populated message inside m (set or
+// not: an unset proto3 string is the empty name), by descriptors only, descending into event blobs.
+func listNsValues(m protoreflect.Message, out *[]string) {
+	md := m.Descriptor()
+	for i := 0; i < md.Fields().Len(); i++ {
+		fd := md.Fields().Get(i)
+		name := string(fd.Name())
+		if fd.Kind() == protoreflect.StringKind && !fd.IsList() && !fd.IsMap() && (fd.ContainingOneof() == nil || m.Has(fd)) &&
+			(name == "namespace" || strings.HasSuffix(name, "_namespace") || (md.FullName() == "temporal.api.namespace.v1.NamespaceInfo" && name == "name")) {
+			*out = append(*out, m.Get(fd).String())
+		}
+	}
+	m.Range(func(fd protoreflect.FieldDescriptor, v protoreflect.Value) bool {
+		switch {
+		case fd.IsMap():
+			if fd.MapValue().Message() != nil {
+				v.Map().Range(func(_ protoreflect.MapKey, mv protoreflect.Value) bool {
+					listNsValues(mv.Message(), out)
+					return true
+				})
+			}
+		case fd.Message() != nil && fd.Message().FullName() == "temporal.api.common.v1.DataBlob":
+			if nonEventBlobFields[string(fd.FullName())] {
+				return true
+			}
+			dec := func(bm protoreflect.Message) {
+				blob := bm.Interface().(*commonpb.DataBlob)
+				if len(blob.GetData()) == 0 {
+					return
+				}
+				if evs, err := evSerializer.DeserializeEvents(blob); err == nil {
+					for _, ev := range evs {
+						listNsValues(ev.ProtoReflect(), out)
+					}
+				}
+			}
+			if fd.IsList() {
+				for i := 0; i < v.List().Len(); i++ {
+					dec(v.List().Get(i).Message())
+				}
+			} else {
+				dec(v.Message())
+			}
+		case fd.Message() != nil:
+			if fd.IsList() {
+				for i := 0; i < v.List().Len(); i++ {
+					listNsValues(v.List().Get(i).Message(), out)
+				}
+			} else {
+				listNsValues(v.Message(), out)
+			}
+		}
+		return true
+	})
+}
